@@ -164,6 +164,31 @@ def polynomial(ctx: Ctx, h: Harness):
             ctx.unknown("R8.poly", site, str(e))
             continue
         ctx.decide(bad is None, "R8.poly", site, "", bad or "", where=where(fi, fi.node))
+    # the same families declared in a document (<Term coefficient= exponent=>): what the loader builds evaluates alike
+    from ..xmlmodel import make_elem
+    from . import xmlcommon as X
+    try:
+        hx = X.harness(ctx.prog)
+        X.set_ns_state(hx, None, {})
+    except (Unsupported, Raised) as e:
+        ctx.unknown("R8.poly", f"{fi.key}::declared", str(e))
+        return
+    for name in ("dense", "unordered", "repeated exponent", "sparse 1,3", "int coefficients"):
+        terms = families[name]
+        site = f"{CAL}::PolynomialCalibrator.from_xml::{name}"
+        el = make_elem("PolynomialCalibrator", children=[make_elem("Term", {"coefficient": repr(c), "exponent": str(e)}) for c, e in terms])
+        bad = None
+        try:
+            for x in (0, 1, 2, -3, 0.5, 10):
+                kind, got = hx.outcome("calibrators.PolynomialCalibrator.from_xml(el).calibrate(x)", "xtce/encodings.py", el=el, x=x)
+                want = sum(float(c) * x ** e for c, e in terms)
+                if kind != "ok" or abs(got - want) > 1e-9 * max(1.0, abs(want)):
+                    bad = f"<Term> list {terms} as declared in a document, at x={x}: {got!r}; the polynomial's value is {want!r}"
+                    break
+        except Unsupported as e:
+            ctx.unknown("R8.poly", site, str(e))
+            continue
+        ctx.decide(bad is None, "R8.poly", site, "", bad or "", where=where(fi, fi.node))
 
 
 def _spline_expected(xs, ys, q, order, extrapolate):
